@@ -6,6 +6,8 @@
 * `Counter.reset`, `Info.info`:  is `self._raise_if_not_observable()` the first statement?  -> counterResetChecksObservable,
                                  infoChecksObservable   (finding F7: today it is not, and a labelled parent raises AttributeError)
 * `Counter.reset`:               `self._value.set(0.0)` vs `set(0)`                         -> resetStoresFloat
+* `Info.info`, `Enum.__init__`, `Histogram.__init__`: is the caller's dict / states / buckets object COPIED before it is
+                                 stored?                       -> infoCopiesDict, enumCopiesStates, histogramCopiesBuckets
 * `MetricWrapperBase.labels`:    the three guards before `if labelkwargs:` -> labelsCheckOrder  (in source order)
                                  `for l in self._labelnames` in the keyword branch -> kwargsValueOrder (declaration | call)
                                  `sorted(labelkwargs) != sorted(self._labelnames)`, `len(labelvalues) != len(self._labelnames)`
@@ -44,7 +46,8 @@ deriving Repr, DecidableEq
 # reports the site; a site that is understood overwrites its entries with what the source says.
 DEFAULTS = dict(counter=('lt', True, 0), observe=('le', True), hsum=('ge', True, 0, 0),
                 checks=['noLabelnames', 'hasLabelvalues', 'bothArgsKwargs'], kworder='declaration',
-                kwnames='ne', poscount='ne', reset_checks=True, info_checks=True, reset_float=True)
+                kwnames='ne', poscount='ne', reset_checks=True, info_checks=True, reset_float=True,
+                info_copies=True, states_copied=True, buckets_copied=True)
 
 
 def _emit(fails, v):
@@ -77,6 +80,12 @@ def _emit(fails, v):
     out += '/-- `Counter.reset`: is the stored zero the float `0.0` (true) or the int `0` (false)?  With an int the cell holds a\n'
     out += 'Python int and later int amounts are added exactly instead of in floating point. -/\n'
     out += 'def resetStoresFloat : Bool := %s\n' % b(v['reset_float'])
+    out += '/-- does the library store a COPY of an object the caller may go on mutating?  `Info.info`: `self._value = dict(val)`;\n'
+    out += '`Enum.__init__`: `self._states` / `self._kwargs[\'states\']` from `list(states)`; `Histogram.__init__`:\n'
+    out += '`self._kwargs[\'buckets\']` from `list(buckets)`.  false = the bare name is stored (the caller\'s object is aliased). -/\n'
+    out += 'def infoCopiesDict : Bool := %s\n' % b(v['info_copies'])
+    out += 'def enumCopiesStates : Bool := %s\n' % b(v['states_copied'])
+    out += 'def histogramCopiesBuckets : Bool := %s\n' % b(v['buckets_copied'])
     return out + footer(TARGET)
 
 
@@ -212,6 +221,41 @@ def site_info(tree, v):
         raise Fail('the overlap test `self._labelname_set.intersection(val.keys())` is not the first test')
 
 
+def _is_copy_of(value, name):
+    """True: `list(name)` / `tuple(name)` / `dict(name)` / `name.copy()` / `name[:]`; False: the bare name; else Fail"""
+    if isinstance(value, ast.Name) and value.id == name:
+        return False
+    if (isinstance(value, ast.Call) and isinstance(value.func, ast.Name) and value.func.id in ('list', 'tuple', 'dict')
+            and len(value.args) == 1 and not value.keywords and isinstance(value.args[0], ast.Name) and value.args[0].id == name):
+        return True
+    if ast.unparse(value) in ('%s.copy()' % name, '%s[:]' % name):
+        return True
+    raise Fail('neither a copy of `%s` nor the bare name: %s' % (name, ast.unparse(value)))
+
+
+def _stores(func, wanted, name):
+    """all assignments in `func` to one of the targets `wanted` (unparsed): is every stored value a copy of `name`?"""
+    found = []
+    for n in ast.walk(func):
+        if isinstance(n, ast.Assign):
+            ts = [ast.unparse(t) for t in n.targets]
+            if any(t in wanted for t in ts):
+                found.append(_is_copy_of(n.value, name))
+    if not found:
+        raise Fail('no assignment to %s' % ' / '.join(wanted))
+    return all(found)
+
+
+def site_copies(tree, v):
+    v['info_copies'] = _stores(find_func(tree, 'info', cls='Info'), ['self._value'], 'val')
+    v['states_copied'] = _stores(find_func(tree, '__init__', cls='Enum'), ['self._states', "self._kwargs['states']"], 'states')
+    v['buckets_copied'] = _stores(find_func(tree, '__init__', cls='Histogram'), ["self._kwargs['buckets']"], 'buckets')
+    # ... and the read side must hand out the stored object unchanged
+    cs = find_func(tree, '_child_samples', cls='Info')
+    if "Sample('_info', self._value, 1.0, None, None)" not in ast.unparse(cs):
+        raise Fail('Info._child_samples does not expose self._value as it is')
+
+
 def site_labels(tree, v):
     f = find_func(tree, 'labels', cls='MetricWrapperBase')
     body = [n for n in f.body if not (isinstance(n, ast.Expr) and isinstance(n.value, ast.Constant))]
@@ -278,6 +322,7 @@ def generate(repo):
         return _emit([('parse', str(e))], v)
     for name, fn in (('Counter.inc', site_counter), ('Histogram.observe', site_observe),
                      ('Histogram._child_samples', site_hsum), ('Counter.reset', site_reset), ('Info.info', site_info),
+                     ('caller-owned arguments', site_copies),
                      ('MetricWrapperBase.labels', site_labels)):
         try:
             fn(tree, v)
